@@ -200,6 +200,17 @@ pub fn make_keys(rng: &mut Rng) -> Keys {
     Keys { root, ext, ext_pub }
 }
 
+/// build_token, keeping the token reached after every step (authority, then each append).
+pub fn build_token_steps(blocks: &[ABlock], keys: &Keys, rng: &mut Rng) -> Result<Vec<Biscuit>, biscuit_auth::error::Token> {
+    let mut steps = vec![];
+    for n in 1..=blocks.len() {
+        // the generators are deterministic in `rng`: rebuild the prefix with a fork per step
+        let mut r = rng.fork();
+        steps.push(build_token(&blocks[..n], keys, &mut r)?);
+    }
+    Ok(steps)
+}
+
 /// Builds the token through the public API (third-party blocks through the request /
 /// create_block / append_third_party protocol).
 pub fn build_token(blocks: &[ABlock], keys: &Keys, rng: &mut Rng) -> Result<Biscuit, biscuit_auth::error::Token> {
